@@ -227,4 +227,19 @@ CHECKS = {
         "required_probes": [],
         "assumptions": COMMON_ASSUMPTIONS,
     },
+    "C17": {
+        "pkg": ".",
+        "test": "TestVerifC17",
+        "level": "exploration",
+        "proc_timeout": "60m",
+        "quick": {"procs": 32, "checks_per_proc": 1500},
+        "thorough": {"procs": 64, "checks_per_proc": 15000},
+        "rule": "one case = two peers with a rotation interval from {1 s, 2 s, 7 s, 1 min, 1 h, 24 h, static} on the simulated clock and a "
+                "seeded history of 2-20 events: register (same or another period), advance the clock (within the period, exactly to the "
+                "boundary, boundary -1 s / +1 s, across two boundaries, across the grace period), resolve, exchange rotation values, "
+                "Marshal on one peer / Unmarshal on the other, own previous value during the grace period, foreign values; non-trivial "
+                "= always (every history moves the clock or exchanges values); distinct = distinct hash of the event trace.",
+        "required_probes": ["rotation_observed", "values_exchanged", "marshal_roundtrip", "previous_value_accepted_in_grace"],
+        "assumptions": COMMON_ASSUMPTIONS + ["one bubble has one clock: no clock skew between the two peers"],
+    },
 }
